@@ -25,7 +25,7 @@ func c15Cfg() *DeclCfg {
 		Kinds:   append(append([]string{}, allKinds...), "map[string]int", "map[string]string", "map[int]string", "map[string]string", "[]string"),
 		MinOpts: 1, MaxOpts: 5, MaxGroups: 2, MaxSub: 1, MaxCmds: 3, MaxDepth: 2, Exec: true,
 		Env: true, Defaults: true, Required: true, Choices: true, Optional: true, Hidden: true, NoIni: true, IniName: true,
-		Base: true, Pos: true, Namespaces: true, Init: true, InitMulti: true, Descriptions: true, Aliases: true, ShortOnly: true, MultiByte: true, DottedCmds: true,
+		Base: true, Pos: true, Namespaces: true, Init: true, InitMulti: true, Descriptions: true, Aliases: true, ShortOnly: true, MultiByte: true, DottedCmds: true, DupTags: true, ManyAliases: true, CapCmds: true,
 		ParserOpts: []uint{0, optHelpFlag, optHelpFlag | optPassDoubleDash, optHelpFlag | optPrintErrors | optPassDoubleDash, optIgnoreUnknown, optPassAfterNonOption | optHelpFlag, optHelpFlag | optIgnoreUnknown | optPrintErrors},
 	}
 }
@@ -149,7 +149,20 @@ func (propC15) Gen(r *Rng, idx int, tier string) *Scenario {
 		case 7:
 			// completion request
 			argv := genArgvLoose(or, sc.Decl, or.Range(0, 3))
-			argv = append(argv, or.Pick([]string{"-", "--", "", "--p", "-a", "a", "--" + or.Pick(longWords)[:1]}))
+			last := or.Pick([]string{"-", "--", "", "--p", "-a", "a", "--" + or.Pick(longWords)[:1]})
+			if cs := sc.Decl.allCmds(); len(cs) > 0 && or.Bool() {
+				// a prefix of a command name or alias
+				c := cs[or.Intn(len(cs))].C
+				w := c.Name
+				if len(c.Aliases) > 0 && or.Bool() {
+					w = c.Aliases[or.Intn(len(c.Aliases))]
+				}
+				last = w[:or.Range(1, len(w))]
+				if or.Chance(1, 3) {
+					last = w[:1]
+				}
+			}
+			argv = append(argv, last)
 			sc.Ops = append(sc.Ops, Op{Kind: "setenv", Key: "GO_FLAGS_COMPLETION", Text: BStr(or.Pick([]string{"1", "verbose"}))},
 				Op{Kind: "parse", Argv: bstrs(argv)},
 				Op{Kind: "unsetenv", Key: "GO_FLAGS_COMPLETION"})
